@@ -291,7 +291,7 @@ func c06(r *core.Run) {
 	// closure: Puts behind err == nil, provenance of stored chunks
 	var errCell *ssa.FreeVar
 	for _, fv := range putCl.FreeVars {
-		if fv.Name() == "err" {
+		if isErrResultOf(putCl, fv) {
 			errCell = fv
 		}
 	}
